@@ -639,7 +639,7 @@ type renderer struct {
 	sb      strings.Builder
 	tgtName func(i int) string
 	tblName func(i int) string
-	chkName string
+	chkLine string
 }
 
 func (r *renderer) line(ind int, format string, a ...any) {
@@ -683,7 +683,7 @@ func (r *renderer) mods(ind int, m *mods) {
 func (r *renderer) chk(ind int, has bool) {
 	if has {
 		r.line(ind, "check {")
-		r.line(ind+1, "&%s", r.chkName)
+		r.line(ind+1, "%s", r.chkLine)
 		r.line(ind, "}")
 	}
 }
